@@ -348,7 +348,7 @@ Definition pair_toks (x : cli) (p : cpair) : list tok :=
    W (if cp_tunnel p then
         let c := srv_conn x p in
         if negb (t_ex (k_t c)) then "n" else if t_closed (k_t c) then "c" else "o"
-      else if negb (e_ex (l_upc l)) then "n" else if e_eof (l_upc l) then "x" else if e_closed (l_upc l) then "c" else "o")].
+      else if negb (e_ex (l_upc l)) then "n" else if e_closed (l_upc l) then "c" else "o")].
 
 Definition dispatch_cli (sh : shape) (r : list tok) : list tok :=
   match parse_cops (S (List.length r)) r with
